@@ -227,3 +227,26 @@ def describe(v, n=6):
         return repr(v)[:200]
     except Exception:
         return "<undescribable>"
+
+
+def equiv_headtail(ref, got, progname, order_free=False, index_free=False):
+    """Comparison for programs that take head()/tail() of a sorted frame: when the first / last partition(s)
+    hold fewer rows than requested, dask only warns, and pushing head/tail below a sort may then return more
+    rows (up to n) than the unoptimized plan: accepted iff the shorter result is a prefix / suffix of the longer."""
+    r = equiv(ref, got, order_free, index_free)
+    if r is not False:
+        return r
+    toks = set(progname.replace("|", ":").split(":"))
+    try:
+        if len(got) > len(ref) > 0 or (len(ref) == 0 and len(got) > 0):
+            if toks & {"tail", "tail2"} or "tail" in progname:
+                cut = got[-len(ref):] if isinstance(got, pd.Index) else got.iloc[len(got) - len(ref):]
+                if len(ref) == 0 or equiv(ref, cut, order_free, index_free) is not False:
+                    return True
+            if toks & {"head3", "head4_all", "head_all", "head_k2"} or "head" in progname:
+                cut = got[: len(ref)] if isinstance(got, pd.Index) else got.iloc[: len(ref)]
+                if len(ref) == 0 or equiv(ref, cut, order_free, index_free) is not False:
+                    return True
+    except Exception:
+        pass
+    return False
